@@ -166,6 +166,8 @@ pub enum Mut {
     XmlMinEqMax { nth: u16, all: bool },
     /// add `count` fixed-value integer records to the first prototype
     XmlAddRecords { count: u16 },
+    /// the first prototype loses all its records and the record count of its cloud is set to `count`
+    HollowCloud { count: String },
     XmlDeepNest { depth: u32 },
     /// deep nesting whose end tags a careless scanner sees inside comments: groups of `width` start tags, then a
     /// comment that opens with one of the shortest spellings (`<!-->`, `<!--->`) and contains `width` end tags; the
@@ -302,7 +304,13 @@ pub fn gen_script(s: &mut Src) -> Script {
             4 => Mut::XmlDelete { nth: s.below(80) as u16 },
             5 => Mut::XmlDuplicate { nth: s.below(80) as u16 },
             6 => Mut::XmlMinEqMax { nth: s.below(12) as u16, all: s.flag() },
-            7 => Mut::XmlAddRecords { count: *s.pick(&[1u16, 100, 3000, 22000]) },
+            7 => {
+                if s.chance(1, 3) {
+                    Mut::HollowCloud { count: s.pick(&["18446744073709551615", "9223372036854775807", "4294967296", "1000000000000", "70000"]).to_string() }
+                } else {
+                    Mut::XmlAddRecords { count: *s.pick(&[1u16, 100, 3000, 22000]) }
+                }
+            }
             8 => {
                 if s.chance(1, 3) {
                     Mut::XmlEntities { size: *s.pick(&[1u16, 100, 30000]), refs: *s.pick(&[1u16, 10, 255, 4096]), levels: *s.pick(&[0u8, 1, 5, 9]) }
@@ -581,6 +589,20 @@ fn apply_mut(img: &mut Img, m: &Mut) {
                 }
                 img.xml.insert_str(p, &add);
                 img.xml_dirty = true;
+            }
+        }
+        Mut::HollowCloud { count } => {
+            let a = img.xml.find("<prototype ");
+            let b = a.and_then(|a| img.xml[a..].find("</prototype>").map(|q| a + q));
+            if let (Some(a), Some(b)) = (a, b) {
+                if let Some(gt) = img.xml[a..b].find('>').map(|q| a + q + 1) {
+                    img.xml.replace_range(gt..b, "");
+                    let t = attr_ranges(&img.xml, "recordCount");
+                    if let Some((x, y)) = t.first().copied() {
+                        img.xml.replace_range(x..y, count);
+                    }
+                    img.xml_dirty = true;
+                }
             }
         }
         Mut::XmlDeleteChildren { nth } => {
